@@ -27,4 +27,27 @@ package req
 //@
 //@ func (*context).cancel
 //@   holds c.s.Mutex
+//@   ensures old(c.reqID) != 0 ==> !has(c.s.ctxByID, old(c.reqID))
+//@   ensures c.reqID == 0 && c.repMsg == nil && c.reqMsg == nil
 //@
+//@
+//@ func (*pipe).receiver
+//@   ghost body0 = result.Body at call:RecvMsg#1
+//@   at call:Free#1 assert len(body0) < 4
+//@   before call:cancelSend#1 assert len(body0) >= 4 && id == be32(body0) && has(s.ctxByID, id) && c == s.ctxByID[id]
+//@   at call:Broadcast#1 assert c.repMsg == m && !has(s.ctxByID, id) && c.reqMsg == nil
+//@   at call:Free#3 assert len(body0) >= 4 && !has(s.ctxByID, be32(body0))
+//@
+//@ func (*context).resendMessage
+//@   before call:send#1 assert at("call:Lock#1", c.reqID) == id && at("call:Lock#1", c.reqMsg) != nil && !at("call:Lock#1", c.queued)
+//@
+//@ func (*socket).RemovePipe
+//@   before go:resendMessage#1 assert c.resendTime != 0 && c.reqMsg != nil && id == c.reqID
+//@   before call:cancel#2 assert c.resendTime == 0
+//@
+//@ func (*socket).send
+//@   before go:sendCtx#1 assert m == c.reqMsg && c.lastPipe == p
+//@   at call:AfterFunc#1 assert c.resendTime > 0 && timer_d(result) == c.resendTime
+//@
+//@ func (*context).RecvMsg
+//@   ensures result0 != nil ==> isnil(result1)
